@@ -26,19 +26,27 @@ def vertex_on_ray(f, pt, v):
 
 
 def shape(rng):
-    fam = rng.choice(['star', 'star', 'comb', 'lattice', 'convex'])
+    fam = rng.choice(['star', 'star', 'comb', 'lattice', 'convex', 'factory'])
+    if fam == 'factory':
+        # polygons as the factories build them (they may pre-set bounding data): rectangles on any base direction, regular polygons
+        from ladybug_geometry.geometry2d import Vector2D
+        if rng.random() < 0.7:
+            hv = rng.choice([(0.0, 1.0), (1.0, 0.0), (0.0, -1.0), (-1.0, 0.0), (-1.0, 2.0), (0.6, 0.8), (0.28, -0.96), (-0.8, -0.6)])
+            poly = Polygon2D.from_rectangle(P2(G.rpt2(rng, 20)), Vector2D(*hv), G.dy(rng.uniform(1, 9)), G.dy(rng.uniform(1, 9)))
+        else:
+            poly = Polygon2D.from_regular_polygon(rng.randint(3, 9), G.dy(rng.uniform(1, 9)), P2(G.rpt2(rng, 20)))
+        return fam, [tuple(v) for v in poly.vertices], poly
     if fam == 'star': b = G.star_polygon(rng, n=rng.randint(3, 25), R=rng.choice([10.0, 1000.0]))
     elif fam == 'comb': b = G.comb_polygon(rng)
     elif fam == 'lattice': b = G.lattice_polygon(rng, w=6, h=6)[0]
     else: b = G.convex_polygon(rng)
     if rng.random() < 0.5: b = b[::-1]
-    return fam, b
+    return fam, b, Polygon2D([P2(p) for p in b])
 
 
 def fam_point(ctx, rng):
-    fam, b = shape(rng)
+    fam, b, poly = shape(rng)
     f = [X.fpt(p) for p in b]
-    poly = Polygon2D([P2(p) for p in b])
     xs = [p[0] for p in b]; ys = [p[1] for p in b]
     w, h = max(xs) - min(xs), max(ys) - min(ys)
     dv = (Fraction(1), Fraction(1, 100000))
@@ -78,8 +86,7 @@ def fam_point(ctx, rng):
 
 
 def fam_on_edge(ctx, rng):
-    fam, b = shape(rng)
-    poly = Polygon2D([P2(p) for p in b])
+    fam, b, poly = shape(rng)
     i = rng.randrange(len(b))
     a, c = b[i - 1], b[i]
     mode = rng.choice(['vertex', 'edge', 'offset_in', 'offset_out'])
